@@ -612,6 +612,10 @@ pub fn run(tier: &str, rec: &Recorder) -> RunOutput {
         let pm = Params { bound: 1, budget: if tier == "quick" { 40 } else { 2000 }, seeds: if tier == "quick" { vec![0, 1] } else { vec![0, 1, 2, 3] }, free_seeds: 4 };
         let tot = std::sync::Mutex::new(Counters::default());
         par_for(med.len(), |i| {
+            if Instant::now() > deadline {
+                stats.capped.store(true, std::sync::atomic::Ordering::Relaxed);
+                return;
+            }
             let mut c = Counters::default();
             let k = check_louvain(&med[i], rec, &mut c, &pm);
             c.addn("medium_graph_executions", k);
